@@ -148,6 +148,14 @@ func cmdSelftest(args []string) int {
 				results[i].detail = err.Error()
 				return
 			}
+			for _, ent := range loadBounded() {
+				if hasProp(ent.Props, m.Property) {
+					br := runBoundedWith(ent, "quick", map[string][]byte{path: []byte(mut)})
+					if br.Status != "ok" {
+						failed = append(failed, "bounded."+ent.ID+" ["+br.Status+": "+truncate(br.Detail, 160)+"]")
+					}
+				}
+			}
 			hit := false
 			for _, f := range failed {
 				for _, want := range m.Expect {
